@@ -4,11 +4,14 @@ import c11lib as L
 NAME = "fillomino"
 MODULE = "cspuz.puzzle.fillomino"
 FUNC = "solve_fillomino"
-MAX_ANSWERS = 100000
 
 
 def call(mod, pb):
     return mod.solve_fillomino(pb["h"], pb["w"], pb["grid"])
+
+
+def ncand(pb):
+    return (pb['h'] * pb['w']) ** (pb['h'] * pb['w'])
 
 
 def encode(pb):
